@@ -30,9 +30,11 @@ func (f *FuncCtx) stmt(s ast.Stmt, env *Env, fl *flow) *Env {
 		return f.block(s.List, env, fl)
 	case *ast.ExprStmt:
 		f.exprMulti(s.X, env)
+		f.afterStmt(s, env)
 		return env
 	case *ast.AssignStmt:
 		f.assignStmt(s, env)
+		f.afterStmt(s, env)
 		return env
 	case *ast.DeclStmt:
 		gd, ok := s.Decl.(*ast.GenDecl)
@@ -1098,6 +1100,7 @@ func (f *FuncCtx) rangeStmt(s *ast.RangeStmt, env *Env, fl *flow, label string) 
 		f.emit(fmt.Sprintf("(assert (forall ((i!q Int)) (! (=> (and (<= 0 i!q) (< i!q %s)) (and (select (m_dom %s) (select %s i!q)) (= (select %s (select %s i!q)) i!q))) :pattern ((select %s i!q)))))", card, x.T, seq, inv, seq, seq))
 		f.emit(fmt.Sprintf("(assert (forall ((k!q %s)) (! (=> (select (m_dom %s) k!q) (and (<= 0 (select %s k!q)) (< (select %s k!q) %s) (= (select %s (select %s k!q)) k!q))) :pattern ((select (m_dom %s) k!q)) :pattern ((select %s k!q)))))", ks, x.T, inv, inv, card, seq, inv, x.T, inv))
 		ksT := types.NewSlice(u.Key())
+		f.S.SortOf(ksT)
 		ghost["$ks"] = Val{T: fmt.Sprintf("(mk_slice %s %s false)", seq, card), Typ: ksT}
 		ghost[fmt.Sprintf("$ks%d", ordNext)] = ghost["$ks"]
 		ghost["$m"] = x
@@ -1127,4 +1130,34 @@ func (f *FuncCtx) rangeStmt(s *ast.RangeStmt, env *Env, fl *flow, label string) 
 	}
 	f.fail("unsupported range over %s", x.Typ)
 	return env
+}
+
+
+// afterStmt proves and then assumes the 'after <callee>: e' stepping stones attached to calls in this statement.
+func (f *FuncCtx) afterStmt(s ast.Stmt, env *Env) {
+	if f.C == nil || len(f.C.After) == 0 || f.fr == nil || f.fr.depth != 0 || env.dead {
+		return
+	}
+	ast.Inspect(s, func(n ast.Node) bool {
+		if _, ok := n.(*ast.FuncLit); ok {
+			return false
+		}
+		c, ok := n.(*ast.CallExpr)
+		if !ok {
+			return true
+		}
+		text := exprStr(ast.Unparen(c.Fun))
+		cls, ok := f.C.After[text]
+		if !ok {
+			return true
+		}
+		f.callOrd["after:"+text]++
+		for k, cl := range cls {
+			sc := &specCtx{old: f.entry, pos: s.End(), scope: f.fr.scope, pcs: f.PC}
+			g := f.evalClause(cl, env, sc)
+			f.oblige(fmt.Sprintf("after.%s#%d.%d", text, f.callOrd["after:"+text], k+1), "after", env, g, cl.Text, fmt.Sprintf("%s:%d", shortPath(cl.File), cl.Line))
+			f.assume(env, g)
+		}
+		return true
+	})
 }
